@@ -165,7 +165,7 @@ def run(ctx):
                     _, k, v = l.split()
                     hist[k] = int(v)
             cc = sorted(set(o.split()[-1] for o in ops if o.startswith("tf conf") and len(o.split()) == 10))
-            ctx.corr["close_clears_out_probe"] = cc   # ["0"]: tree before fix F26, ["1"]: with it (model parameter Cfg.closeClears)
+            ctx.corr["close_clears_out_probe"] = cc   # ["0"]: tree before fix F44, ["1"]: with it (model parameter Cfg.closeClears)
             ctx.corr.setdefault("runs", []).append({"label": label, "histogram": hist,
                                                      "oracle": [l for l in log.splitlines() if l.startswith("ORACLE-DONE")]})
             for o, i in list(zip(ops, impl))[1:6]:
@@ -398,7 +398,7 @@ def giveup_leg(ctx, parent, corr_broken):
     """Finding gives-up-after-max-attempts, replayed on the real nsq_to_file binary built from the tree under
     check. Model: Nsq.Model.ToFile.shouldFail with max_attempts = the regenerated default of main()
     (Nsq.Gen.ToolsToFileFn.toFileMaxAttempts) or the operator's --consumer-opt. Decision theorem:
-    Props.C19Ops.tool_safe_iff (safe iff max_attempts = 0). On a tree with fix F25 (main sets cfg.MaxAttempts = 0)
+    Props.C19Ops.tool_safe_iff (safe iff max_attempts = 0). On a tree with fix F43 (main sets cfg.MaxAttempts = 0)
     the default cases must all be written before FIN; without it the known finding reproduces."""
     binp = os.path.join(fw.BUILD, "bin", "nsq_to_file_%d" % os.getpid())
     rc, out = fw.sh(["go", "build", "-o", binp, "./apps/nsq_to_file"], cwd=REPO, timeout=900)
